@@ -70,3 +70,42 @@ package croncontroller
 //@   ensures [C01] never-early: forall i int :: old(enqN) <= i && i < enqN ==> enqTs[i] <= clock
 //@   ensures [C01] log-append-only: enqN >= old(enqN) && (forall i int :: i < old(enqN) ==> enqKey[i] == old(enqKey[i]) && enqTs[i] == old(enqTs[i]))
 //@   ensures [C01,C04] per-key-counts-only-grow: forall k string :: enqPerKey[k] >= old(enqPerKey[k])
+
+//@ import activejobstore "github.com/furiko-io/furiko/pkg/execution/stores/activejobstore"
+
+// ---- control.go / reconciler.go: creating the Job for a (JobConfig, schedule time) (C02) -----------------------------------------
+
+//@ extern func iface github.com/furiko-io/furiko/pkg/runtime/controllercontext.Configs.JobConfigs
+//@   params recv
+//@   ensures result1 == nil ==> result0 != nil
+
+//@ extern func iface github.com/furiko-io/furiko/pkg/execution/controllers/croncontroller.ExecutionControlInterface.CreateJob
+//@   devirtualize croncontroller.ExecutionControl
+
+//@ func ExecutionControl.CreateJob
+//@   tags C02, C20
+//@   requires c != nil && rj != nil
+//@   modifies jwN, jwKind, jwObj, jwOK, jwErr
+//@   loop 1 invariant -1 <= rangeindex
+//@   ensures [C02] exactly-one-create: jwN == old(jwN) + 1 && jwKind[old(jwN)] == 1 && jwObj[old(jwN)] == rj
+//@   ensures [C20] retried-unless-invalid: !jwOK[old(jwN)] ==> (result == nil) == (jwErr[old(jwN)] == 422)
+//@   ensures [C02] success-is-nil: jwOK[old(jwN)] ==> result == nil
+//@   ensures [C02] log-append-only: forall i int :: i < old(jwN) ==> jwKind[i] == old(jwKind[i]) && jwObj[i] == old(jwObj[i]) && jwOK[i] == old(jwOK[i])
+
+//@ pure isCreateOf(i Int, jc *execution.JobConfig, unix Int) bool =
+//@     jwKind[i] == 1 && jwObj[i] != nil && jwObj[i].Name == jobconfig.jobNameFor(jc.Name, unix) && jwObj[i].Namespace == jc.Namespace
+//@  && (jobconfig.LabelKeyJobConfigUID in jwObj[i].Labels) && jwObj[i].Labels[jobconfig.LabelKeyJobConfigUID] == string(jc.UID)
+//@  && (jobconfig.AnnotationKeyScheduleTime in jwObj[i].Annotations) && jwObj[i].Annotations[jobconfig.AnnotationKeyScheduleTime] == strconv.Itoa(unix)
+//@  && jwObj[i].Spec.Type == execution.JobTypeScheduled && jwObj[i].Spec.StartPolicy != nil && jwObj[i].Spec.StartPolicy.ConcurrencyPolicy == jc.Spec.Concurrency.Policy
+//@  && len(jwObj[i].OwnerReferences) == 1 && jwObj[i].OwnerReferences[0].UID == jc.UID && jwObj[i].OwnerReferences[0].Controller != nil && *jwObj[i].OwnerReferences[0].Controller
+
+//@ func Reconciler.processCronForConfig
+//@   tags C02, C06, C20
+//@   requires w != nil && typeis(w.client, *ExecutionControl) && unbox(w.client, *ExecutionControl) != nil && !scheduleTime.IsZero()
+//@   requires typeis(w.store, *activejobstore.Store) && activejobstore.stwf(unbox(w.store, *activejobstore.Store))
+//@   modifies jwN, jwKind, jwObj, jwOK, jwErr, clock
+//@   ensures [C02] at-most-one-create: old(jwN) <= jwN && jwN <= old(jwN) + 1
+//@   ensures [C02] creates-exactly-the-job-of-this-schedule-time: jwN == old(jwN) + 1 ==>
+//@        (exists jc *execution.JobConfig :: jc != nil && jc.Namespace == namespace && jc.Name == name && isCreateOf(old(jwN), jc, scheduleTime.Unix()))
+//@   ensures [C20] failed-create-is-retried: jwN == old(jwN) + 1 && !jwOK[old(jwN)] && jwErr[old(jwN)] != 422 ==> result != nil
+//@   ensures [C02] log-append-only: forall i int :: i < old(jwN) ==> jwKind[i] == old(jwKind[i]) && jwObj[i] == old(jwObj[i]) && jwOK[i] == old(jwOK[i])
